@@ -295,3 +295,15 @@ func (e *VerifC15Stream) QueryVec(series []int, minTS, maxTS int64, order string
 
 // Close releases the TSDB.
 func (e *VerifC15Stream) Close() error { return e.db.Close() }
+
+// Stream returns the resource as the query layer sees it.
+func (e *VerifC15Stream) Stream() Stream { return e.s }
+
+// SetVectorized flips the engine flag (--stream-vectorized-enabled).
+func (e *VerifC15Stream) SetVectorized(on bool, batchSize int) {
+	e.s.vectorized = vstream.DefaultConfig()
+	e.s.vectorized.Enabled = on
+	if batchSize > 0 {
+		e.s.vectorized.BatchSize = batchSize
+	}
+}
